@@ -449,6 +449,52 @@ set_option maxRecDepth 100000 in
 example : listed (runHistory ⟨cfg, 65535, false, fun _ => []⟩ []
     [.register evalObs, .run [(rerunRule, true)], .register evalObs, .run [(rerunRule, true)]]).st 1 = 1 := by decide
 
+/-! ### InsightsEvaluator: handle the outcome, then decorate (which may fail) -/
+
+/-- whatever the decoration providers are — absent, fine, empty, or raising on every read — and however the
+decoration statements end, one call of `InsightsEvaluator.observer` does to the accounting exactly what
+`SingleEvaluator.observer` does: the outcome is handled before anything can raise -/
+theorem decoration_after_outcome (d : Deco) (r : Rule) (s : ISt) : (observerI d r s).st = observe s.st r :=
+  observerI_st d r s
+
+/-- hence over every run order (and history) the reported outcomes do not depend on the decoration step's success:
+InsightsEvaluator's results / skips / metadata / metadata keys / broker values are SingleEvaluator's, for every
+decoration environment; in particular two environments give the same accounting -/
+theorem decoration_independent (env : Env) (d d' : Deco) (fired : List Fired) (s : ISt) :
+    (fired.foldl (stepI env d) s).st = fired.foldl (stepG env) s.st ∧
+    (fired.foldl (stepI env d) s).st = (fired.foldl (stepI env d') s).st := by
+  rw [foldl_stepI_st, foldl_stepI_st]
+  exact ⟨rfl, rfl⟩
+
+/-- `InsightsEvaluator(broker).process(graph)` accounts like `SingleEvaluator(broker).process(graph)`: every theorem
+above about `run` holds for it -/
+theorem insights_accounts_like_single (env : Env) (d : Deco) (seed : List Comp) (rules : List Rule) :
+    (runI env d seed rules).st = run env seed rules := by
+  unfold runI
+  rw [foldl_stepI_st, foldl_stepG_all_in_graph]
+  rfl
+
+/-- the decoration statement itself: a provider with content sets the system id to its first line, stripped; an
+absent or empty one changes nothing; a raising one raises (and the rest of the observer is skipped) -/
+theorem decoration_result (d : Deco) (s : ISt) (hs : s.systemId = none) :
+    (∀ l ls, d.machineId = .content (l :: ls) → machineIdStmt d s = .ok { s with systemId := some (pyStrip l) }) ∧
+    (d.machineId = .raises → machineIdStmt d s = .error ()) ∧
+    (d.machineId = .absent ∨ d.machineId = .content [] → machineIdStmt d s = .ok s) := by
+  refine ⟨?_, ?_, ?_⟩
+  · intro l ls hm; simp [machineIdStmt, hs, hm, readFirst]
+  · intro hm; simp [machineIdStmt, hs, hm, readFirst]
+  · intro hm; rcases hm with hm | hm <;> simp [machineIdStmt, hs, hm, readFirst]
+
+/-- non-vacuity of the abort semantics: were the decoration to come FIRST, a raising provider would lose the outcome -/
+example : (seqStmts [machineIdStmt ⟨.raises, .absent, .absent⟩, handleStmt rerunRule]
+    ⟨(engineStep ⟨cfg, 65535, false, fun _ => []⟩ true (St.init []) rerunRule), none, none, false⟩).st.results = [] := by
+  decide
+set_option maxRecDepth 100000 in
+example : ((observerI ⟨.raises, .raises, .raises⟩ rerunRule
+    ⟨(engineStep ⟨cfg, 65535, false, fun _ => []⟩ true (St.init []) rerunRule), none, none, false⟩).st.results.map
+      (fun kv => kv.2.length)) = [1] := by
+  decide
+
 /-! ### get_response -/
 
 /-- what `get_response()` puts under every heading, for every reachable evaluator state: the analysis block; the
